@@ -65,6 +65,26 @@ def _fallback_unit():
                   one_whole_text_tract(result, twprge_matches, sec_matches))])
 
 
+def _setup_with_cleanup(ip, env):
+    """as _setup, plus the abstraction contract of cleanup_desc (not reached on the unchanged tree: copy_all skips the clean-up)"""
+    from pyvc import models
+    from pytrs.parser.plssdesc import plss_parse
+    _setup(ip, env)
+    models.register_model(plss_parse.cleanup_desc, plss_stubs.cleanup_model)
+
+
+def _deduced_copy_all_segment_unit():
+    """copy_all as the deduced layout under segment: the chunker must not cut the text at the Twp/Rges"""
+    return Unit(
+        name='C11/PLSSParser[deduced copy_all under segment]', prop='C11', target='props.c11:make_parser',
+        params={'text': Str(), 'layout': Const(None), 'segment': Const(True), 'sec_within': Bool(), 'parse_qq': Const(False),
+                'clean_up': Const(None)},
+        ghost={'twprge_matches': Choice(*TWP_MATCHES), 'sec_matches': Choice(*SEC_MATCHES), 'deduced': Const('copy_all')},
+        requires=lambda text: len(text) >= 45, setup_params=_setup_with_cleanup,
+        ensures=[('exactly_one_tract_with_the_whole_text', lambda twprge_matches, sec_matches, result:
+                  one_whole_text_tract(result, twprge_matches, sec_matches))])
+
+
 def units():
     return [_forced_unit(), _fallback_unit()]
 
@@ -102,7 +122,7 @@ def _init_unit():
 
 
 def units():
-    return [_forced_unit(), _fallback_unit(), _init_unit()]
+    return [_forced_unit(), _fallback_unit(), _deduced_copy_all_segment_unit(), _init_unit()]
 
 
 # ======================================================================================================================
@@ -127,7 +147,8 @@ def _bounded_copyall(tier, seed):
     rng = random.Random(seed)
     n = 40 if tier == 'quick' else 1200
     texts = texts + ['T154N-R97W Sec 24 - 27: S/2, Sec 28: N/2', 'Sec 24 - 27: S/2', 'T154N-R97W Sec 24 - 27 S/2', 'T154N-R97W NE/4',
-                     'The W/2 of the tract, T154N-R97W']
+                     'The W/2 of the tract, T154N-R97W', 'T154N-R97W: all lands north of the river; T155N-R97W: all lands south of it',
+                     'T154N-R97W and T155N-R97W, and also T156N-R97W, no section given', 'Sec 14: NE/4, Sec 15: W/2 and Sec 16: ALL, township unknown']
     texts = texts + gen.token_soup(rng, n, max_tokens=9)
     for desc in gen.abstract_descriptions(rng, n // 4):
         w = gen.render(desc, rng.choice(gen.LAYOUTS), twp_style=rng.randrange(6), sec_word=rng.choice(gen.SEC_WORDS), colon=rng.random() < 0.6)
@@ -164,6 +185,13 @@ def _bounded_copyall(tier, seed):
                 continue
             ev += 1
             distinct.add((text, 'deduced', cfg))
+            from pytrs.parser.plssdesc.plss_parse import deduce_layout
+            no_match = not pytrs.find_sec(d.pp_desc) or not pytrs.find_twprge(d.pp_desc)
+            if (no_match and 'segment' not in cfg) or deduce_layout(d.pp_desc) == 'copy_all':
+                # copy_all is the only option for the description as a whole (no section or no Twp/Rge anywhere; under `segment`
+                # the fallback is per chunk — DESIGN 3.0 — unless the layout deduced for the whole text is copy_all itself)
+                if len(d.tracts) != 1 or d.tracts[0].desc != d.pp_desc:
+                    bad({'text': text, 'config': cfg}, [(t.trs, t.desc) for t in d.tracts], ['one tract', d.pp_desc])
             whole = [t for t in d.tracts if t.desc == d.pp_desc and d.pp_desc != '']
             if len(whole) > 1:
                 bad({'text': text, 'config': cfg}, f'{len(whole)} tracts carry the whole text', 'at most one')
